@@ -9,7 +9,7 @@
    re-acquire (send, then CAS; patches/C20-fix-1.patch), [fx = false] the original order (CAS, then send).
    All statements are for every capacity n, every schedule tr and every state reached, without bound. *)
 From Coq Require Import List Arith.
-From Thunder Require Import Limiter.Model Limiter.Proofs.
+From Thunder Require Import Limiter.Model Limiter.Proofs Limiter.ModelMulti Limiter.ProofsMulti.
 Import ListNotations.
 
 (* No token is lost or duplicated: the channel holds exactly one token per holder whose status is
@@ -32,15 +32,24 @@ Proof. exact running_le_limit_lemma. Qed.
 Print Assumptions running_le_limit.
 
 (* release is idempotent, also during a temporary release: per holder at most one release call ever takes
-   a token; a call that finds the holder released changes nothing but its own program counter; and
-   released is final. *)
+   a token; a call that finds the holder released changes nothing but its own program counter; released is
+   final: NO step of any call (a later release, a nested or repeated TemporarilyRelease, another goroutine's
+   Acquire) ever changes a released holder's status again; and TemporarilyRelease on a released holder gives
+   nothing up.  The third conjunct is the statement that rules out "resurrecting" a released holder: a block()
+   whose first operation is Swap(status, blocked) == acquired instead of CompareAndSwap(acquired, blocked)
+   would take a released holder to blocked and, after f, to acquired, and its token would stay in the channel
+   after everyone released (quiescent_full_capacity would fail as well).  In the model that code is a step
+   B0 -> ... with status Rel -> Blk, which this theorem excludes; on the implementation the trace-conformance
+   check rejects it (predicted pc PF, observed B1) and the oracle reports capacity-lost-at-quiescence. *)
 Theorem release_idempotent : forall n tr s,
   run true (init n) tr = Some s ->
   (forall h, count (rel_took h) (threads s) <= 1) /\
   (forall t h, nth_error (threads s) t = Some (R0 h) -> nth_error (holders s) h = Some Rel ->
      step true s (LRelSwap t) = Some (set_thread s t (RDone h false))) /\
   (forall h l s', nth_error (holders s) h = Some Rel -> step true s l = Some s' ->
-     nth_error (holders s') h = Some Rel).
+     nth_error (holders s') h = Some Rel) /\
+  (forall t h, nth_error (threads s) t = Some (B0 h) -> nth_error (holders s) h = Some Rel ->
+     step true s (LBlkCas t) = Some (set_thread s t (PF (Some h)))).
 Proof. exact release_idempotent_lemma. Qed.
 Print Assumptions release_idempotent.
 
@@ -84,6 +93,43 @@ Theorem atomics_enabled : forall n tr s t h,
 Proof. exact atomics_enabled_lemma. Qed.
 Print Assumptions atomics_enabled.
 
+(* Shared contexts - what batch.Invoke does: every waiter of a batch group calls
+   TemporarilyRelease(ctx, func() { <-bg.doneCh }), and callers that share one context share one holder, so
+   several block() calls run on the same holder at once.  At most one of them is between giving the token up
+   and re-acquiring it; while it is, the holder is not acquired, and every further TemporarilyRelease on that
+   holder runs f without touching the channel (its first CAS fails).  Together with token_accounting: sharing
+   a context never gives up or re-acquires more than the holder's one token. *)
+Theorem concurrent_temporary_release_on_shared_holder : forall n tr s h,
+  run true (init n) tr = Some s ->
+  count (blk_owner h) (threads s) <= 1 /\
+  (1 <= count (blk_owner h) (threads s) -> nth_error (holders s) h = Some Blk \/ nth_error (holders s) h = Some Rel) /\
+  (forall t, 1 <= count (blk_owner h) (threads s) -> nth_error (threads s) t = Some (B0 h) ->
+     step true s (LBlkCas t) = Some (set_thread s t (PF (Some h)))).
+Proof. exact shared_context_lemma. Qed.
+Print Assumptions concurrent_temporary_release_on_shared_holder.
+
+(* Several limiters on one context chain (With on a context that already has a limiter): Limiter/ModelMulti.v,
+   one component per limiter, labels tagged with their limiter; which limiter / holder a call resolves to is
+   the client's context chain and is arbitrary here.  Every schedule of the chain projects, limiter by
+   limiter, to a schedule of the single-limiter system that reaches that limiter's component ... *)
+Theorem nested_limiters_are_independent : forall fx caps tr ms,
+  mrun fx (minit caps) tr = Some ms ->
+  length ms = length caps /\
+  forall i n, nth_error caps i = Some n ->
+    exists s, nth_error ms i = Some s /\ run fx (init n) (proj i tr) = Some s.
+Proof. exact nested_limiters_lemma. Qed.
+Print Assumptions nested_limiters_are_independent.
+
+(* ... hence every limiter of the chain keeps its own accounting and its own bound, whatever happens on the others *)
+Theorem nested_limiters_safe : forall caps tr ms i n s,
+  mrun true (minit caps) tr = Some ms -> nth_error caps i = Some n -> nth_error ms i = Some s ->
+  chan s = owed s /\ believes_running s <= n /\ count is_acq (holders s) <= n /\ running s <= n /\
+  (quiescent s = true -> chan s = count is_acq (holders s)) /\
+  (forall h, count (rel_took h) (threads s) <= 1) /\
+  (forall h, count (blk_owner h) (threads s) <= 1).
+Proof. exact nested_safety_lemma. Qed.
+Print Assumptions nested_limiters_safe.
+
 (* The same statements are false of the original order of operations (DESIGN F11): limit 1, the schedule
    [f11_trace] (8 atomic operations, plus the labels that start calls and the return of f) reaches a state
    with two holders acquired, two goroutines believing they run, and the token count broken. *)
@@ -124,3 +170,31 @@ Example ex_cancel :
   = Some (1, [ADone (Some 0); ADone None])
   /\ run true (init 1) [ LNewAcquire true false; LAcqSend 0; LNewAcquire true false; LAcqSend 1 ] = None.
 Proof. vm_compute. split; reflexivity. Qed.
+
+(* batch.Invoke composed with the limiter (limit 1): goroutine G holds holder 0 and three Invoke calls share its
+   context.  The creator of the batch group does not release; the two waiters call TemporarilyRelease on
+   holder 0 at once: the first gives the token up (threads 1), the second runs its wait as it is (thread 2);
+   K acquires the freed slot (thread 3) and releases it; doneCh is closed: both waits return, the first waiter
+   re-acquires.  One token moved out and back, never more than one holder acquired. *)
+Example ex_batch_shared_context :
+  option_map (fun s => (chan s, owed s, holders s, count (blk_owner 0) (threads s), quiescent s))
+    (run true (init 1)
+       [ LNewAcquire true false; LAcqSend 0;
+         LNewBlock (Some 0); LNewBlock (Some 0); LBlkCas 1; LBlkCas 2; LBlkRecv 1;
+         LNewAcquire true false; LAcqSend 3; LNewRelease 1; LRelSwap 4; LRelRecv 4;
+         LFRet 2; LFRet 1; LBlkSend 1; LBlkCas2 1 ])
+  = Some (1, 1, [Acq; Rel], 0, true).
+Proof. vm_compute. reflexivity. Qed.
+
+(* two limiters on one chain (outer limit 1, inner limit 2): G acquires from the outer one, then twice from the
+   inner one; TemporarilyRelease on the outer holder while the inner ones stay; the outer slot is taken by K *)
+Example ex_nested_limiters :
+  option_map (map (fun s => (cap s, chan s, owed s, holders s)))
+    (mrun true (minit [1; 2])
+       [ (0, LNewAcquire true false); (0, LAcqSend 0);
+         (1, LNewAcquire true false); (1, LAcqSend 0); (1, LNewAcquire true false); (1, LAcqSend 1);
+         (0, LNewBlock (Some 0)); (0, LBlkCas 1); (0, LBlkRecv 1);
+         (0, LNewAcquire true false); (0, LAcqSend 2);
+         (1, LNewRelease 0); (1, LRelSwap 2); (1, LRelRecv 2) ])
+  = Some [(1, 1, 1, [Blk; Acq]); (2, 1, 1, [Rel; Acq])].
+Proof. vm_compute. reflexivity. Qed.
